@@ -167,6 +167,17 @@ class NPFacade(types.ModuleType):
             return _elementwise(_sqrt1, a)
         return np.sqrt(a)
 
+    def hypot(self, a, b):
+        if has_sym(a) or has_sym(b):
+            return _elementwise(lambda x, y: _sqrt1(x * x + y * y), a, b)
+        return np.hypot(a, b)
+
+    def copysign(self, a, b):
+        if has_sym(a) or has_sym(b):
+            # magnitude of a with the sign of b; b == 0 counts as positive (a symbolic real has no negative zero)
+            return _elementwise(lambda x, y: (abs(x) if y >= 0 else -abs(x)), a, b)
+        return np.copysign(a, b)
+
     def fabs(self, a):
         if has_sym(a):
             return _elementwise(_abs1, a)
@@ -210,6 +221,10 @@ def selftest(seed=0):
         (f.log10(p), np.log10(p)),
         (f.sqrt(p), np.sqrt(p)),
         (f.fabs(a), np.fabs(a)),
+        (f.hypot(a, p), np.hypot(a, p)),
+        (f.copysign(p, a), np.copysign(p, a)),
+        (np.asarray(_elementwise(lambda x, y: (abs(x) if y >= 0 else -abs(x)), p, a), dtype=float), np.copysign(p, a)),
+        (np.asarray(_elementwise(lambda x, y: _sqrt1(x * x + y * y), a, p), dtype=float), np.hypot(a, p)),
         (f.sign(a), np.sign(a)),
         (f.where(a > 0, a, -a), np.where(a > 0, a, -a)),
         (f.isclose(a, a + 1e-9), np.isclose(a, a + 1e-9)),
